@@ -56,13 +56,15 @@ Print Assumptions C06_inactive_affects_nothing.
 
 (* one-shot keys tapped in a row combine and restart the timeout: the OneShot arm of do_action, for whatever the inner action
    does (`doact rec …` is the recursive call that performs it): the new key joins the active one-shot keys (room for 16), the
-   timeout is the configured one again, the end condition is that of the new key *)
+   timeout is the configured one again, the end condition is that of the new key; the plain keys pressed since the first one-shot
+   (whose release ends the release variants) are not forgotten *)
 From KV Require Import Proofs.C06Combine.
 Theorem C06_oneshot_keys_combine_and_restart : forall cfg rec l inner timeout e c d os ls l2 cu,
   doact rec (lpt_update_coord c (before_action l c)) inner c d true [] = Ok (l2, cu) ->
   (length (os_keys (oneshot l2)) < ONE_SHOT_MAX_ACTIVE)%nat ->
   exists l', do_action_body cfg rec l (OneShot inner timeout e) c d os ls = Ok (l', cu) /\
              os_keys (oneshot l') = os_keys (oneshot l2) ++ [c] /\
-             os_timeout (oneshot l') = timeout /\ os_end_config (oneshot l') = e /\ states l' = states l2.
+             os_timeout (oneshot l') = timeout /\ os_end_config (oneshot l') = e /\ states l' = states l2 /\
+             os_other (oneshot l') = os_other (oneshot l2).
 Proof. exact oneshot_keys_combine_and_restart. Qed.
 Print Assumptions C06_oneshot_keys_combine_and_restart.
